@@ -89,7 +89,11 @@ mod verif_replay_expr_dm {
     /// C11: expressions whose operands alias the same stored value terminate (no self-deadlock on the value's lock)
     #[test]
     fn verif_replay_aliased_operands_terminate() {
-        for src in ["a = a", "a ?= a", "v[v]", "m[m]", "a + a", "a == a", "v + v", "v == v"] {
+        for src in [
+            "a = a", "a ?= a", "v[v]", "m[m]", "a + a", "a == a", "v + v", "v == v",
+            // aliasing one level down: the literal [v] holds the very value stored under v
+            "w ?= [v]; w == v", "w ?= [v]; v == w", "w ?= [v]; w + v", "w ?= {'k':v}; w == v", "w ?= [v]; w[0] == v", "w ?= [v,v]; w[0] == w[1]",
+        ] {
             let r = eval_with_timeout(src);
             assert!(r.is_ok(), "evaluation of `{}` did not terminate (blocked on its own data lock)", src);
         }
